@@ -148,5 +148,53 @@ theorem locsCanon_insert (host guest : Seq) (index : Int) (hc : host.locsCanon =
     exact expand_canon f.loc 0 index guest.len hcf (Or.inr hi0) (coordsLe_of_within _ _ (hgin f hf))
       (by omega) (expandK3_false 0 _ hi0 f.loc ((canonP_iff _).mp hcf).2 (hgw f hf))
 
+/-- **Embed**: host and guest locations both go through an insertion `Expand` (well-formed features) -/
+theorem locsCanon_embed (host guest : Seq) (index : Int) (hc : host.locsCanon = true)
+    (hg : guest.locsCanon = true) (hw : host.featsWf = true) (hgw : guest.featsWf = true)
+    (hin : host.featsWithin = true) (hgin : guest.featsWithin = true) (hi0 : 0 ≤ index) (hi : index ≤ host.len)
+    (hsum : host.len + guest.len ≤ 4611686018427387904) : (host.embed index guest).locsCanon = true := by
+  simp only [Seq.locsCanon, Seq.featsWf, Seq.featsWithin, List.all_eq_true] at *
+  intro g hgm
+  have hgl : 0 ≤ guest.len := by simp [Seq.len]
+  rcases (mem_insertAll _ _ g).mp (by simpa [Seq.embed] using hgm) with h | h
+  · obtain ⟨f, hf, rfl⟩ := mem_insertAll_map host.feats _ g h
+    have hcf := hc f hf
+    exact expand_canon f.loc index guest.len host.len hcf (Or.inr hgl) (coordsLe_of_within _ _ (hin f hf)) hsum
+      (expandK3_false index _ hgl f.loc ((canonP_iff _).mp hcf).2 (hw f hf))
+  · obtain ⟨f, hf, rfl⟩ := List.mem_map.mp h
+    have hcf := hg f hf
+    exact expand_canon f.loc 0 index guest.len hcf (Or.inr hi0) (coordsLe_of_within _ _ (hgin f hf))
+      (by omega) (expandK3_false 0 _ hi0 f.loc ((canonP_iff _).mp hcf).2 (hgw f hf))
+
+/-- **Concat** of two: the first table as it is, the second moved behind the first sequence -/
+theorem locsCanon_concat2 (a b : Seq) (hc : a.locsCanon = true) (hg : b.locsCanon = true)
+    (hgw : b.featsWf = true) (hgin : b.featsWithin = true)
+    (hsum : a.len + b.len ≤ 4611686018427387904) : (Seq.concat2 a b).locsCanon = true := by
+  simp only [Seq.locsCanon, Seq.featsWf, Seq.featsWithin, List.all_eq_true] at *
+  intro g hgm
+  have hal : 0 ≤ a.len := by simp [Seq.len]
+  rcases (mem_insertAll _ _ g).mp (by simpa [Seq.concat2] using hgm) with h | h
+  · exact hc g h
+  · obtain ⟨f, hf, rfl⟩ := List.mem_map.mp h
+    have hcf := hg f hf
+    exact expand_canon f.loc 0 a.len b.len hcf (Or.inr hal) (coordsLe_of_within _ _ (hgin f hf))
+      (by omega) (expandK3_false 0 _ hal f.loc ((canonP_iff _).mp hcf).2 (hgw f hf))
+
+/-- the features `gts.Erase` keeps -/
+def eraseKept (s : Seq) (offset length : Int) : Seq :=
+  ⟨s.feats.filter fun f => f.key = "source" || !(f.loc.within offset (offset + length)), s.bytes⟩
+
+theorem erase_eq (s : Seq) (offset length : Int) :
+    s.erase offset length = (eraseKept s offset length).delete offset length := rfl
+
+/-- **Erase** = Delete on the features that are kept -/
+theorem locsCanon_erase (s : Seq) (offset length : Int) (hc : s.locsCanon = true) (ho : 0 ≤ offset)
+    (hl : 0 ≤ length) (hk : (eraseKept s offset length).deleteK3 offset length = false) :
+    (s.erase offset length).locsCanon = true := by
+  rw [erase_eq]
+  refine locsCanon_delete _ offset length ?_ ho hl hk
+  simp only [Seq.locsCanon, eraseKept, List.all_eq_true] at *
+  exact fun f hf => hc f (List.mem_filter.mp hf).1
+
 end GenBank
 end Gts
